@@ -44,6 +44,10 @@ def pinch_analysis_service(data: Any, project_name: str = "Project", is_return_f
     """
     # Validate request data using Pydantic model
     request_data = TargetInput.model_validate(data)
+    if request_data is data:
+        # A model instance is returned as is; preparation rewrites zone labels and
+        # completes/deactivates utilities in place, so work on a copy of the caller's object.
+        request_data = request_data.model_copy(deep=True)
 
     # Formulate the top level zone with all subzones and approperiate input data
     master_zone = prepare_problem(
